@@ -1,0 +1,26 @@
+// SPDX-License-Identifier: Apache-2.0
+// Copyright Authors of Cilium
+
+//go:build verif
+
+package internal
+
+import "sync/atomic"
+
+var verifLockHookFn atomic.Pointer[func(phase string, seq uint64)]
+
+// VerifSetLockHook installs (or with nil removes) a callback invoked around
+// every individual mutex acquisition / release of SortableMutexes.
+func VerifSetLockHook(fn func(phase string, seq uint64)) {
+	if fn == nil {
+		verifLockHookFn.Store(nil)
+		return
+	}
+	verifLockHookFn.Store(&fn)
+}
+
+func verifLockHook(phase string, seq uint64) {
+	if fn := verifLockHookFn.Load(); fn != nil {
+		(*fn)(phase, seq)
+	}
+}
